@@ -145,6 +145,14 @@ pub fn run(ctx: &Ctx) {
             }
         }
         rep.count_n("exhaustive-small-shapes", cases.len() as u64);
+        // deterministic length sweeps: single piece, and the token-shaped call (3-fragment header, message, footer, assertion)
+        let before = cases.len();
+        for len in 0..=600usize {
+            cases.push(vec![vec![vec![0x5a; len]]]);
+            cases.push(vec![vec![b"v4".to_vec(), vec![], b".local.".to_vec()], vec![vec![0x11; 32]], vec![vec![0x22; len]], vec![b"foot".to_vec()], vec![vec![]]]);
+            cases.push(vec![vec![b"v3".to_vec(), vec![], vec![0x33; len % 61]], vec![vec![0x44; len / 3], vec![0x55; len - len / 3]]]);
+        }
+        rep.count_n("length-sweep-0..600", (cases.len() - before) as u64);
         let nrand = if ctx.thorough() { 200_000 } else { 8_000 };
         for _ in 0..nrand {
             cases.push(gen_case(&mut g));
